@@ -82,6 +82,10 @@ def main():
                 continue
             conds.append(Cond("vf.ch.h_c01", "check_update_target", f"[graph {g}, target {t}] {OPS['check_update_target']}; the cache invariant is preserved", timeout_s=to,
                               env={"GRAPH": g, "TGT": str(t)}, signature=f"{g}:check_update_target"))
+        if g in ("diamond", "weak"):
+            for t1, t2 in ([(NC[g] - 1, 0)] if chk.tier == "quick" else [(NC[g] - 1, 0), (1, NC[g] - 2)]):
+                conds.append(Cond("vf.ch.h_c01", "check_update_two", f"[graph {g}, targets {t1} and {t2}] Model.update(a, b): both targets and all their ancestors are up to date with from-scratch values, "
+                                  "unrelated nodes untouched; the cache invariant is preserved", timeout_s=to, env={"GRAPH": g, "TGT": str(t1), "TGT2": str(t2)}, signature=f"{g}:check_update_two"))
         if chk.tier == "quick" and g == "dist2":
             continue          # full update / toggle are covered on the other graphs in the quick tier
         for fn in ("check_update_all", "check_toggle_and_state") + (("check_restore",) if chk.tier != "quick" and NC[g] <= 4 else ()):
